@@ -1,4 +1,13 @@
 package main
 
 func factsC04() {
+	addStr("c04DefaultHost", constVal("pkg/haproxy/types/types.go", "DefaultHost"), "types.go: const DefaultHost")
+	// buildMapKey separates host and path with this literal
+	seps := []string{}
+	for _, s := range strLits("pkg/haproxy/types/maps.go", "buildMapKey") {
+		if s == `"#"` {
+			seps = append(seps, s)
+		}
+	}
+	addStr("c04KeySeparator", one(seps, "buildMapKey separator"), "maps.go buildMapKey: hostname + <sep> + path")
 }
